@@ -2456,10 +2456,60 @@ func c09MergeComplete(w *World, r *Result, rule string) {
 						r.Bad(rule, key, pos, "the call edges of the imported file are copied wholesale ("+whole+"): the entry of a key both parsers have (the top-level key \"\") is replaced instead of merged, so calls made by the top-level code of an earlier import are forgotten and their functions removed as unused")
 						continue
 					}
+					loopFn := fn
+					isDst := func(m ssa.Value) bool {
+						if u, ok := m.(*ssa.UnOp); ok {
+							if fa, ok := u.X.(*ssa.FieldAddr); ok && fa.Field == fi && fa.X != anchor {
+								return true
+							}
+						}
+						return false
+					}
+					if rng == nil {
+						// the merge may live in a helper that receives both maps
+						for _, b2 := range fn.Blocks {
+							for _, i2 := range b2.Instrs {
+								c2, ok := i2.(*ssa.Call)
+								if !ok {
+									continue
+								}
+								callee2 := c2.Call.StaticCallee()
+								if callee2 == nil || len(callee2.Blocks) == 0 || pkgOf(callee2) != w.Pkgs["parser"].Types {
+									continue
+								}
+								srcIdx, dstIdx := -1, -1
+								for ai, a := range c2.Call.Args {
+									if u, ok := a.(*ssa.UnOp); ok {
+										if fa, ok := u.X.(*ssa.FieldAddr); ok && fa.Field == fi {
+											if fa.X == anchor {
+												srcIdx = ai
+											} else {
+												dstIdx = ai
+											}
+										}
+									}
+								}
+								if srcIdx < 0 || dstIdx < 0 || srcIdx >= len(callee2.Params) || dstIdx >= len(callee2.Params) {
+									continue
+								}
+								srcP, dstP := callee2.Params[srcIdx], callee2.Params[dstIdx]
+								for _, b3 := range callee2.Blocks {
+									for _, i3 := range b3.Instrs {
+										if x, ok := i3.(*ssa.Range); ok && x.X == srcP {
+											rng = x
+											loopFn = callee2
+											isDst = func(m ssa.Value) bool { return m == ssa.Value(dstP) }
+										}
+									}
+								}
+							}
+						}
+					}
 					if rng == nil {
 						r.Bad(rule, key, pos, "the call edges recorded by the parser of the imported file are never taken over")
 						continue
 					}
+					_ = loopFn
 					// the loop: header = block of the Next instruction
 					var next *ssa.Next
 					for _, ref := range *rng.Referrers() {
@@ -2490,10 +2540,8 @@ func c09MergeComplete(w *World, r *Result, rule string) {
 						for _, i2 := range blk.Instrs {
 							switch x := i2.(type) {
 							case *ssa.MapUpdate:
-								if u, ok := x.Map.(*ssa.UnOp); ok {
-									if fa, ok := u.X.(*ssa.FieldAddr); ok && fa.Field == fi && fa.X != anchor && x.Key == keyVal {
-										handled = true
-									}
+								if isDst(x.Map) && x.Key == keyVal {
+									handled = true
 								}
 							case *ssa.Call:
 								// the entry's elements are walked (range over the slice: len(elem) in the inner header)
